@@ -97,6 +97,7 @@ struct W {
     socks: Vec<SockCfg>,
     now: i64,
     sizes: HashMap<u32, usize>,
+    v6: bool,
 }
 
 impl W {
@@ -138,7 +139,8 @@ impl W {
                 }
             }
             L4::Other(p) if *p == RAW_PROTO => {
-                mark(v, 3, ip.total_len, &ip.l4_bytes, true, 0, 0, true);
+                let fam = if self.v6 { 6 } else { 4 };
+                mark(v, if ip.ver == fam { 3 } else { 4 }, ip.total_len, &ip.l4_bytes, true, 0, 0, true);
             }
             _ => {}
         }
@@ -331,12 +333,10 @@ pub fn random(args: &Args) {
         let mut iface = Interface::new(c, &mut dev, Instant::from_millis(0));
         // address family of the run: the same world over IPv4 / ARP or IPv6 / neighbour discovery
         let v6 = rng.chance(50);
+        // the interface is dual-stack in every run; the run's family is the one the sockets talk
         iface.update_ip_addrs(|a| {
-            if v6 {
-                a.push(IpCidr::new(ip_of(MY_IP, true), 64)).unwrap();
-            } else {
-                a.push(IpCidr::new(IpAddress::v4(10, 0, 0, 1), 24)).unwrap();
-            }
+            a.push(IpCidr::new(IpAddress::v4(10, 0, 0, 1), 24)).unwrap();
+            a.push(IpCidr::new(ip_of(MY_IP, true), 64)).unwrap();
         });
         if v6 {
             iface.routes_mut().add_default_ipv6_route(Ipv6Address::from_octets(a6(GW))).unwrap();
@@ -379,7 +379,20 @@ pub fn random(args: &Args) {
             scfg.push(json!({"port": 6000 + k, "rxm": rxm, "rxp": rxp, "txm": txm, "txp": txp}));
             socks.push(SockCfg { h, kind: (k - 1) as u8, port: 6000 + k as u16, rxm, rxp, txm, txp });
         }
-        let mut w = W { iface, dev, sockets, socks, now: 0, sizes: HashMap::new() };
+        {
+            // a receive-only raw socket for the same protocol in the OTHER address family: each raw socket must only
+            // be handed packets of its own IP version
+            let (rxm, rxp) = (rng.range(1, 4) as usize, *rng.pick(&[200usize, 600]));
+            let h = sockets.add(raw::Socket::new(
+                Some(if v6 { IpVersion::Ipv4 } else { IpVersion::Ipv6 }),
+                Some(IpProtocol::Unknown(RAW_PROTO)),
+                raw::PacketBuffer::new(vec![raw::PacketMetadata::EMPTY; rxm], vec![0u8; rxp]),
+                raw::PacketBuffer::new(vec![raw::PacketMetadata::EMPTY; 1], vec![0u8; 64]),
+            ));
+            scfg.push(json!({"port": 6004, "rxm": rxm, "rxp": rxp, "txm": 1, "txp": 64}));
+            socks.push(SockCfg { h, kind: 3, port: 6004, rxm, rxp, txm: 1, txp: 64 });
+        }
+        let mut w = W { iface, dev, sockets, socks, now: 0, sizes: HashMap::new(), v6 };
         // behaviour of the virtual stations
         // (ordered map: iteration order feeds random picks, and runs must be reproducible from (seed, run))
         let mut arp_delay: std::collections::BTreeMap<u8, i64> = std::collections::BTreeMap::new(); // last octet -> delay in ms (-1: never answers)
@@ -523,7 +536,7 @@ pub fn random(args: &Args) {
                         // inbound datagram for one of the sockets (or a closed port / foreign identifier)
                         let did = 100_000 + steps as u32;
                         let size = rng.range(4, 300) as usize;
-                        let port = *rng.pick(&[6000u16, 6001, 6001, 6009, 6002, 6003, 6012]);
+                        let port = *rng.pick(&[6000u16, 6001, 6001, 6009, 6002, 6003, 6012, 6004]);
                         inbound(&mut w, v6, h, did, size, port, steps as u16)
                     }
                 };
@@ -533,7 +546,7 @@ pub fn random(args: &Args) {
             if rng.chance(12) {
                 for b in 0..rng.range(1, 4) {
                     let h = rng.range(2, 12) as u8;
-                    let k = rng.below(4) as usize;
+                    let k = rng.below(5) as usize;
                     let did = 200_000 + steps as u32 * 8 + b as u32;
                     let size = rng.range(4, (w.socks[k].rxp as u64 * 2 / 3).max(5)) as usize;
                     due.push(inbound(&mut w, v6, h, did, size, 6000 + k as u16, steps as u16));
@@ -567,7 +580,7 @@ pub fn random(args: &Args) {
             }
             // application receives (sometimes with a buffer that is too small)
             if rng.chance(30) {
-                for k in 0..4 {
+                for k in 0..5 {
                     let cap = *rng.pick(&[8usize, 64, 2048, 2048]);
                     let peek = rng.chance(50);
                     app_recv(&mut w, k, cap, peek, v6, &mut t);
@@ -575,7 +588,7 @@ pub fn random(args: &Args) {
             }
             if next_did > total_dg && w.now > last_send + horizon && pending.is_empty() {
                 // final drain of the receive queues
-                for k in 0..4 {
+                for k in 0..5 {
                     while app_recv(&mut w, k, 2048, false, v6, &mut t) {}
                 }
                 t.ev(json!({"ev":"end","now":w.now,"how":"quiescent","drained":true}));
@@ -605,10 +618,11 @@ fn inbound(w: &mut W, v6: bool, h: u8, did: u32, size: usize, port: u16, ident: 
             let l = m.len();
             (if v6 { 58 } else { 1 }, m, l)
         }
-        6003 => (RAW_PROTO, dgram_payload(did, size.max(4)), hdr + size.max(4)),
+        6003 | 6004 => (RAW_PROTO, dgram_payload(did, size.max(4)), (if (port == 6004) != v6 { 40 } else { 20 }) + size.max(4)),
         _ => (17, udp_datagram(5000 + h as u16, port, &dgram_payload(did, size)), size),
     };
     w.sizes.insert(did, socksize);
+    let v6 = if port == 6004 { !v6 } else { v6 };
     if v6 {
         eth_frame(MY_MAC, mac_of(src), 0x86dd, &ipv6_packet(a6(src), a6(MY_IP), proto, 64, &body, true))
     } else {
@@ -620,6 +634,7 @@ fn inbound(w: &mut W, v6: bool, h: u8, did: u32, size: usize, port: u16, ident: 
 fn app_recv(w: &mut W, k: usize, cap: usize, peek: bool, v6: bool, t: &mut Trace) -> bool {
     let h = w.socks[k].h;
     let kind = w.socks[k].kind;
+    let v6 = if kind == 3 { !v6 } else { v6 };
     let hdr = match kind {
         0 => 0,
         1 => 8,
@@ -673,7 +688,7 @@ fn app_recv(w: &mut W, k: usize, cap: usize, peek: bool, v6: bool, t: &mut Trace
         Ok((n, sport, src, local)) => {
             let (did, diff) = ident(&buf[..n]);
             // the source address as the abstract tuple, from the socket's metadata (UDP, ICMP) or the packet itself (raw)
-            let srct: Value = if kind == 2 {
+            let srct: Value = if kind >= 2 {
                 if v6 && n >= 40 { ipj(&buf[8..24]) } else if !v6 && n >= 20 { ipj(&buf[12..16]) } else { json!([]) }
             } else {
                 match src.parse::<std::net::IpAddr>() {
